@@ -108,14 +108,16 @@ func init() {
 		ID:    "C12",
 		Title: "Dispute lifecycle, voting power and tally follow the specified rules",
 		Funcs: fcNP("x/dispute/keeper.Ratio", "x/dispute/keeper.Keeper.UpdateDispute", "x/dispute/keeper.Keeper.AddReporterVoteCount",
-			"x/dispute/keeper.Keeper.SubtractReporterVoteCount", "x/dispute/keeper.Keeper.SetVoterReporterStake", "x/dispute/keeper.Keeper.CloseDispute", "x/dispute/keeper.Keeper.AddDisputeRound"),
+			"x/dispute/keeper.Keeper.SubtractReporterVoteCount", "x/dispute/keeper.Keeper.SetVoterReporterStake", "x/dispute/keeper.Keeper.CloseDispute", "x/dispute/keeper.Keeper.AddDisputeRound",
+			"x/dispute/keeper.Keeper.TallyVote", "x/dispute/keeper.msgServer.Vote"),
 		Assumptions: []string{
+			"votes are stored under their id; the snapshot totals of a dispute (BlockInfo) and the token supply are non-negative",
 			"reporter-keeper lookups (Delegation, GetReporterTokensAtBlock, GetDelegatorTokensAtBlock) are read-only; their results are unconstrained and referred to as ret(F,i)",
 		},
 		NotDecided: []string{
-			"status transition relation over all writers of Disputes, vote guards (once per address, only while open), power snapshots at the dispute block: not yet under contract",
+			"status transition relation over ALL writers of Disputes (decided per function: Vote only in state voting and before the end of the voting period, once per address and round, weights as of the dispute's block; TallyVote resolves with quorum exactly when the group weights reach 51 %, without quorum only after the voting period; CloseDispute / AddDisputeRound); the begin-block expiry path (prevote -> failed) is covered for panics only",
 			"no group counter overflows / goes below zero: the call-site preconditions of Add/SubtractReporterVoteCount inside SetVoterReporterStake cannot be established locally (they depend on the history of votes) and are not claimed",
-			"TallyVote's scaled sums against the formula (uses index iterators that are outside the modelled library surface)",
+			"TallyVote's scaled support/against/invalid sums against the formula (each group contributes its fractions equally): LegacyDec products and quotients per group are not carried; the quorum side (sum of the four group ratios against 51 %) is decided",
 		},
 	})
 	reg(&PropDef{
